@@ -56,17 +56,18 @@ type Case struct {
 // ---- generator ----
 
 type dgen struct {
-	t       *rapid.T
-	decls   []Decl
-	structs []string            // struct names by rank order
-	fields  map[string][]string // struct -> "name type"
-	named   []string            // named scalar/slice types and aliases (usable as uint64-like: only scalar ones listed in scalarNamed)
+	t           *rapid.T
+	decls       []Decl
+	structs     []string            // struct names by rank order
+	fields      map[string][]string // struct -> "name type"
+	named       []string            // named scalar/slice types and aliases (usable as uint64-like: only scalar ones listed in scalarNamed)
 	scalarNamed []string
-	consts  []string // uint64 constants and globals
-	trueConsts []string
-	funcs   []fnInfo
-	methods map[string][]fnInfo // struct -> methods
-	ifaces  []ifaceInfo
+	consts      []string // uint64 constants and globals
+	trueConsts  []string
+	funcs       []fnInfo
+	methods     map[string][]fnInfo // struct -> methods
+	ifaces      []ifaceInfo
+	usersDone   map[string]bool
 }
 
 type fnInfo struct {
@@ -82,7 +83,7 @@ type ifaceInfo struct {
 	method string
 }
 
-func (g *dgen) pick(label string, n int) int          { return gen.Uniform(g.t, label, n) }
+func (g *dgen) pick(label string, n int) int      { return gen.Uniform(g.t, label, n) }
 func (g *dgen) chance(label string, pct int) bool { return gen.Chance(g.t, label, pct) }
 
 func (g *dgen) add(d Decl) {
@@ -475,29 +476,38 @@ func (g *dgen) genIfaceUse(i int) {
 	}
 	it := g.ifaces[g.pick("iface", len(g.ifaces))]
 	s := g.structs[g.pick("ifstruct", len(g.structs))]
-	// implementing method
+	mc := s + "__" + it.method
+	user := "useI_" + it.name
+	// implementing method and the function taking the interface: once per (struct, interface)
+	implemented := false
 	for _, m := range g.methods[s] {
 		if m.name == it.method {
-			return
+			implemented = true
 		}
 	}
-	mc := s + "__" + it.method
-	g.add(Decl{Name: mc, Text: "func (r " + s + ") " + it.method + "() uint64 {\n\treturn 7\n}\n", Deps: []string{s}})
-	g.methods[s] = append(g.methods[s], fnInfo{name: it.method, coq: mc, result: "uint64"})
-	user := fmt.Sprintf("useI%d", i)
-	g.add(Decl{Name: user, Text: "func " + user + "(x " + it.name + ") uint64 {\n\treturn x." + it.method + "()\n}\n", Deps: []string{it.name}})
+	if !implemented {
+		g.add(Decl{Name: mc, Text: "func (r " + s + ") " + it.method + "() uint64 {\n\treturn 7\n}\n", Deps: []string{s}})
+		g.methods[s] = append(g.methods[s], fnInfo{name: it.method, coq: mc, result: "uint64"})
+	}
+	if !g.usersDone[it.name] {
+		g.usersDone[it.name] = true
+		g.add(Decl{Name: user, Text: "func " + user + "(x " + it.name + ") uint64 {\n\treturn x." + it.method + "()\n}\n", Deps: []string{it.name}})
+	}
+	// a caller converting the struct to the interface; several callers may convert the same pair,
+	// and later functions may call the callers
 	caller := fmt.Sprintf("callI%d", i)
 	g.add(Decl{Name: caller, Text: "func " + caller + "() uint64 {\n\ts := " + s + "{}\n\treturn " + user + "(s)\n}\n",
 		Deps: []string{s, user, it.name, mc}})
+	g.funcs = append(g.funcs, fnInfo{name: caller, coq: caller, result: "uint64"})
 }
 
 func genCase(t *rapid.T) Case {
-	g := &dgen{t: t, methods: map[string][]fnInfo{}}
+	g := &dgen{t: t, methods: map[string][]fnInfo{}, usersDone: map[string]bool{}}
 	// interleave kinds in rank order so that later declarations can depend on earlier ones
 	n := 4 + g.pick("ndecls", 12)
 	si, ni, ci, fi, ii := 0, 0, 0, 0, 0
 	for k := 0; k < n; k++ {
-		switch g.pick("declkind", 10) {
+		switch g.pick("declkind", 11) {
 		case 0, 1:
 			g.genStruct(si)
 			si++
@@ -515,12 +525,42 @@ func genCase(t *rapid.T) Case {
 				s := g.structs[g.pick("mstruct", len(g.structs))]
 				g.genMethod(s, len(g.methods[s]))
 			}
-		case 9:
-			if g.chance("ifacedecl", 50) || len(g.ifaces) == 0 {
+		case 9, 10:
+			if g.chance("ifacedecl", 30) || len(g.ifaces) == 0 {
 				g.genIface(ii)
 				ii++
 			} else {
 				g.genIfaceUse(k)
+			}
+		}
+	}
+	// a cluster that converts one struct to one interface at several call sites which are themselves
+	// called by other functions (the conversion helper is emitted with its callers)
+	if g.chance("ifacecluster", 30) {
+		if len(g.ifaces) == 0 {
+			g.genIface(ii)
+			ii++
+		}
+		if len(g.structs) == 0 {
+			g.genStruct(si)
+			si++
+		}
+		nc := 2 + g.pick("clustercallers", 2)
+		first := len(g.funcs)
+		for k := 0; k < nc; k++ {
+			saved := g.ifaces
+			g.ifaces = saved[:1]
+			savedS := g.structs
+			g.structs = savedS[:1]
+			g.genIfaceUse(1000 + k)
+			g.ifaces, g.structs = saved, savedS
+		}
+		// functions that call the callers (any of them, including the later ones)
+		for k := 0; k < 1+g.pick("clusterusers", 2); k++ {
+			if len(g.funcs) > first {
+				c := g.funcs[first+g.pick("clustercallee", len(g.funcs)-first)]
+				name := fmt.Sprintf("viaI%d", k)
+				g.add(Decl{Name: name, Text: "func " + name + "() uint64 {\n\treturn " + c.name + "() + 1\n}\n", Deps: []string{c.coq}})
 			}
 		}
 	}
